@@ -6,6 +6,8 @@ mod memory;
 pub use memory::InMemoryStorage;
 
 mod secondary;
+#[cfg(feature = "verif_hooks")]
+pub use secondary::verif_hooks;
 pub use secondary::{SecondaryStorage, StorageOptions as SecondaryStorageOptions};
 
 mod index;
